@@ -7,6 +7,7 @@ import (
 	"bytes"
 	"context"
 	"fmt"
+	"strings"
 	"sync"
 	"sync/atomic"
 	"time"
@@ -31,6 +32,8 @@ type WireRec struct {
 	Data []byte
 	At   time.Duration
 	Fate string // "", "delivered", "dropped", "dup"
+	// Order is a global event counter shared by sends and deliveries.
+	Order int
 }
 
 // Link is one direction of the transport: per-direction FIFO that the
@@ -43,9 +46,12 @@ type Link struct {
 	inflight []*Pkt
 	inbox    chan []byte
 	wire     []WireRec
+	// deliveredLog lists what reached the receiver's inbox, in order.
+	deliveredLog []WireRec
 
 	sent, delivered, dropped, duped int
 	blackhole                       bool
+	hold                            bool  // deliveries suspended (packets stay in flight)
 	sendErr                         error // when set, send fails (transport broken)
 }
 
@@ -66,7 +72,8 @@ func (l *Link) send(ctx context.Context, b []byte) error {
 	l.w.pktSeq++
 	p := &Pkt{ID: l.w.pktSeq, Data: append([]byte{}, b...), At: l.w.s.Now()}
 	l.sent++
-	l.wire = append(l.wire, WireRec{ID: p.ID, Data: p.Data, At: p.At})
+	l.w.order++
+	l.wire = append(l.wire, WireRec{ID: p.ID, Data: p.Data, At: p.At, Order: l.w.order})
 	if l.blackhole {
 		l.dropped++
 		return nil
@@ -112,6 +119,10 @@ func (l *Link) pop() *Pkt {
 func (l *Link) deliver() {
 	p := l.pop()
 	l.delivered++
+	l.w.order++
+	l.mu.Lock()
+	l.deliveredLog = append(l.deliveredLog, WireRec{ID: p.ID, Data: p.Data, At: l.w.s.Now(), Order: l.w.order})
+	l.mu.Unlock()
 	l.inbox <- p.Data
 	l.w.lastDelivery = l.w.s.Now()
 }
@@ -125,6 +136,10 @@ func (l *Link) dup() {
 	p := l.head()
 	p.Copies++
 	l.duped++
+	l.w.order++
+	l.mu.Lock()
+	l.deliveredLog = append(l.deliveredLog, WireRec{ID: p.ID, Data: p.Data, At: l.w.s.Now(), Order: l.w.order})
+	l.mu.Unlock()
 	l.inbox <- append([]byte{}, p.Data...)
 }
 
@@ -171,6 +186,10 @@ type Endpoint struct {
 	Calls []*CallRec
 
 	out, in *Link
+
+	// closedAt is the virtual time at which the endpoint's quit channel
+	// was first seen closed (-1 = still open).
+	closedAt time.Duration
 }
 
 func (e *Endpoint) begin(thread, kind string, data []byte) *CallRec {
@@ -224,6 +243,30 @@ func (e *Endpoint) runScript(thread string, ops []Op) {
 				b = []byte{}
 			}
 			e.finish(c, b, err)
+		case "recvretry":
+			// Retry a Recv that timed out, like an application with a
+			// read deadline would.
+			for tries := 0; tries < 50; tries++ {
+				c := e.begin(thread, "recv", nil)
+				b, err := e.Conn.Recv()
+				if b == nil && err == nil {
+					b = []byte{}
+				}
+				e.finish(c, b, err)
+				if err == nil || !strings.Contains(err.Error(), "timeout") {
+					break
+				}
+			}
+		case "sendretry":
+			for tries := 0; tries < 50; tries++ {
+				c := e.begin(thread, "send", op.Data)
+				err := e.Conn.Send(op.Data)
+				e.finish(c, nil, err)
+				if err == nil || !strings.Contains(err.Error(), "timeout") {
+					break
+				}
+				c.Kind = "send-timeout"
+			}
 		case "close":
 			c := e.begin(thread, "close", nil)
 			err := e.Conn.Close()
@@ -252,6 +295,7 @@ type World struct {
 	c2s     *Link
 	s2c     *Link
 	pktSeq  int
+	order   int
 	callSeq atomic.Int64
 
 	lastDelivery time.Duration
@@ -299,8 +343,8 @@ func newWorld(s *vrt.Sched, sc *Scenario) *World {
 	w := &World{s: s, sc: sc, findKeys: map[string]bool{}, reached: map[string]bool{}, extra: map[string]any{}}
 	w.c2s = newLink(w, "c2s")
 	w.s2c = newLink(w, "s2c")
-	w.C = &Endpoint{Name: "client", w: w, out: w.c2s, in: w.s2c}
-	w.S = &Endpoint{Name: "server", w: w, out: w.s2c, in: w.c2s}
+	w.C = &Endpoint{Name: "client", w: w, out: w.c2s, in: w.s2c, closedAt: -1}
+	w.S = &Endpoint{Name: "server", w: w, out: w.s2c, in: w.c2s, closedAt: -1}
 	w.C.ctx, w.C.cancel = context.WithCancel(context.Background())
 	w.S.ctx, w.S.cancel = context.WithCancel(context.Background())
 
@@ -369,6 +413,12 @@ func (w *World) Actions() []vrt.Action {
 		sc.PreActions(w)
 	}
 	hc, hs := w.c2s.head(), w.s2c.head()
+	if w.c2s.hold {
+		hc = nil
+	}
+	if w.s2c.hold {
+		hs = nil
+	}
 	type dl struct {
 		l *Link
 		p *Pkt
@@ -463,6 +513,7 @@ func safeDeserialize(b []byte) (m gbn.Message, err error) {
 // Quiescent implements vrt.Env: monitors, fingerprint, goal.
 func (w *World) Quiescent(s *vrt.Sched) bool {
 	w.states = append(w.states, w.fingerprint())
+	monClosed(w)
 	for _, m := range w.sc.Monitors {
 		m(w)
 	}
